@@ -141,6 +141,15 @@ Theorem C08_log_is_the_history :
 Proof. exact tb_program_order. Qed.
 Print Assumptions C08_log_is_the_history.
 
+Theorem C08_aimd_log_is_the_history :
+  forall (b : bcfg) (dec : Z -> Z) (m0 : mem) (progs : list (list ab_call))
+         (sched : list (nat * bool)),
+    Forall (fun s => forall tid t, nth_error (st_thr s) tid = Some t ->
+                       done_calls tid (st_log s) ++ cur_calls t ++ th_calls t = nth tid progs [])
+           (states (step (ab_prog b dec)) (init_state m0 progs) sched).
+Proof. exact ab_program_order. Qed.
+Print Assumptions C08_aimd_log_is_the_history.
+
 (* linearizability of the AIMD budget's token balance (the deposit's ceiling nondeterministic
    within [min_budget, max_budget], see Model.Budget.ab_seq_step): at every quiescent state
    there is a sequential order [lin] of the completed try_withdraw / deposit / balance()
